@@ -585,6 +585,9 @@ func main() {
 			checkCase(e, h, []out{{cr, a0}, {total - cr - dp, idMiner}, {dp, a2}}, fee, dp, true, "corpus")
 			checkCase(e, h, []out{{cr, a0}, {total - cr - dp, idMiner}}, fee, dp, true, "corpus-2outs")
 			checkCase(e, h, []out{{cr, a0}}, fee, dp, true, "corpus-1out")
+			// one output with a wrong value is rejected before Outputs()[1] is read
+			checkCase(e, h, []out{{cr + 1, a0}}, fee, dp, true, "corpus-1out-wrong")
+			checkCase(e, h, []out{{0, a2}}, fee, dp, true, "corpus-1out-wrong")
 			checkCase(e, h, nil, fee, dp, true, "corpus-0outs")
 		}
 	}
